@@ -595,7 +595,7 @@ func runTrial(p program, opt trialOpts) (out *outcome) {
 		// negotiation stream 1 s after closing it; a rejecting acceptor closes after 1 s).
 		// If this process was starved for a large part of such a period, the two classes
 		// that a late delivery can produce are not evidence about the decision table.
-		if stall := tr.maxStallUS.Load(); stall >= stallLimitUS && (sig == "cached-connection-closed-after-rejected-negotiation" || sig == "one-sided-cached-connection") {
+		if stall := tr.maxStallUS.Load(); stall >= stallLimitUS && (sig == "cached-connection-closed-after-rejected-negotiation" || sig == "one-sided-cached-connection" || sig == "closed-connection-stays-cached") {
 			inconclusive("scheduler-stall:"+sig, fmt.Sprintf("max stall %d us; %s", stall, msg))
 			return
 		}
@@ -787,6 +787,10 @@ func runTrial(p program, opt trialOpts) (out *outcome) {
 			violation("shared-connection-cached-with-same-direction", st.desc)
 		case st.stable && st.class == "one-sided":
 			violation("one-sided-cached-connection", st.desc)
+		case st.stable && st.class == "dead-entry":
+			// a closed connection is evicted by the reaper as soon as it is closed; one that is
+			// still cached after 4 s without any cache change will be handed to every later dial
+			violation("closed-connection-stays-cached", st.desc)
 		default:
 			inconclusive("settle:"+st.class, st.desc)
 		}
@@ -860,6 +864,10 @@ func runTrial(p program, opt trialOpts) (out *outcome) {
 			violation("shared-connection-cached-with-same-direction", st.desc)
 		case st.stable && st.class == "one-sided":
 			violation("one-sided-cached-connection", st.desc)
+		case st.stable && st.class == "dead-entry":
+			// a closed connection is evicted by the reaper as soon as it is closed; one that is
+			// still cached after 4 s without any cache change will be handed to every later dial
+			violation("closed-connection-stays-cached", st.desc)
 		default:
 			inconclusive("settle:"+st.class, st.desc)
 		}
